@@ -301,10 +301,20 @@ theorem bind_ok {ps : List Param} {args : List α} {kw b : Dict α} (h : bind ps
     (∀ k ∈ kw.keys, k ∈ ps.map (·.name)) ∧ bindAux kw.get? ps args = .ok b := by
   unfold bind at h
   split at h
-  · rename_i hk
-    refine ⟨?_, h⟩
-    simpa [List.all_eq_true] using hk
   · cases h
+  · split at h
+    · rename_i hk
+      refine ⟨?_, h⟩
+      simpa [List.all_eq_true] using hk
+    · cases h
+
+/-- an accepted call passes no more positional arguments than there are parameters in front of the keyword-only ones -/
+theorem bind_ok_capacity {ps : List Param} {args : List α} {kw b : Dict α} (h : bind ps args kw = .ok b) :
+    args.length ≤ posCapacity ps := by
+  unfold bind at h
+  split at h
+  · cases h
+  · omega
 
 /-- the shape of the merged dictionary on a call Python accepts: positional names zipped with the positional
 arguments, then the keyword arguments in call order -/
@@ -485,7 +495,7 @@ theorem invokeKw_merged {ps : List Param} (hnd : (ps.map (·.name)).Nodup) {pos 
       simp only [Dict.keys] at this
       rw [this] at h
       exact hk k h
-  simp only [invokeKw, callSpec, bind, hD, hkeys, if_true, hlook, hr]
+  simp only [invokeKw, callSpec, bind, hD, hkeys, if_true, hlook, hr, List.length_nil, Nat.not_lt_zero, if_false]
 
 theorem sequence_map_ok {ε γ δ : Type} (l : List γ) (f : γ → δ) :
     sequence (l.map (fun x => (Except.ok (f x) : Except ε δ))) = .ok (l.map f) := by
@@ -705,5 +715,126 @@ theorem mem_mergeArgs (names : List String) (ign : Bool) (args : List α) (kw : 
     · obtain ⟨k, v⟩ := kv
       exact Or.inl (List.of_mem_zip h).2
   · exact Or.inr (List.mem_map_of_mem (f := (·.2)) h)
+
+/-! ### calls Python rejects (F-C12-3) -/
+
+/-- whether a keyword-only call binds depends only on WHICH keywords are passed -/
+theorem bindAux_nil_isOk_congr {look : String → Option α} {look' : String → Option β} (ps : List Param)
+    (h : ∀ k, (look k).isSome = (look' k).isSome) :
+    Except.isOk' (bindAux look ps []) = Except.isOk' (bindAux look' ps []) := by
+  induction ps with
+  | nil => rfl
+  | cons p ps ih =>
+    have hp := h p.name
+    simp only [bindAux]
+    cases h1 : look p.name <;> cases h2 : look' p.name <;> simp [h1, h2] at hp
+    · simp only []
+      split
+      · exact ih
+      · rfl
+    · simp only []
+      revert ih
+      cases bindAux look ps [] <;> cases bindAux look' ps [] <;> simp [Except.isOk']
+
+theorem Dict.get?_isSome_iff (d : Dict α) (k : String) : (d.get? k).isSome = decide (k ∈ d.keys) := by
+  by_cases hk : k ∈ d.keys
+  · have : d.get? k ≠ none := fun h => (Dict.get?_eq_none_iff d k).mp h hk
+    cases hg : d.get? k with
+    | none => exact absurd hg this
+    | some v => simp [hk]
+  · simp [(Dict.get?_eq_none_iff d k).mpr hk, hk]
+
+theorem bind_nil_isOk_keys (ps : List Param) (kw : Dict α) (kw' : Dict β) (h : kw.keys = kw'.keys) :
+    Except.isOk' (bind ps [] kw) = Except.isOk' (bind ps [] kw') := by
+  simp only [bind, List.length_nil, Nat.not_lt_zero, if_false, h]
+  split
+  · exact bindAux_nil_isOk_congr ps (fun k => by rw [Dict.get?_isSome_iff, Dict.get?_isSome_iff, h])
+  · rfl
+
+theorem product_length {γ : Type} (ls : List (List γ)) : ∀ vs ∈ product ls, vs.length = ls.length := by
+  induction ls with
+  | nil => simp [product]
+  | cons l r ih =>
+    intro vs hvs
+    simp only [product, List.mem_flatMap, List.mem_map] at hvs
+    obtain ⟨x, _, t, ht, rfl⟩ := hvs
+    simp [ih t ht]
+
+theorem combosChained_length (doms : Nat → List Nat) (args : List Arg) (e : Env) :
+    ∀ p ∈ combosChained doms args e, p.1.length = args.length := by
+  induction args generalizing e with
+  | nil => simp [combosChained]
+  | cons a r ih =>
+    intro p hp
+    cases a with
+    | lit v =>
+      simp only [combosChained, List.mem_map] at hp
+      obtain ⟨t, ht, rfl⟩ := hp
+      simp [ih e t ht]
+    | var i k =>
+      simp only [combosChained] at hp
+      split at hp
+      · simp only [List.mem_map] at hp
+        obtain ⟨t, ht, rfl⟩ := hp
+        simp [ih e t ht]
+      · simp only [List.mem_flatMap, List.mem_map] at hp
+        obtain ⟨v, _, t, ht, rfl⟩ := hp
+        simp [ih _ t ht]
+
+theorem combos_length (q : Quirks) (doms : Nat → List Nat) (e : Env) (args : List Arg) :
+    ∀ p ∈ combos q doms e args, p.1.length = args.length := by
+  intro p hp
+  simp only [combos] at hp
+  split at hp
+  · simp only [combosIndependent, List.mem_map] at hp
+    obtain ⟨vs, hvs, rfl⟩ := hp
+    simpa using product_length _ vs hvs
+  · exact combosChained_length doms args e p hp
+
+/-- a list of invocations that all raise: nothing happened (no candidate) or the first `TypeError` leaves -/
+theorem sequence_all_error {ε γ δ : Type} (l : List γ) (f : γ → Except ε δ) (h : ∀ x ∈ l, ∃ err, f x = .error err) :
+    sequence (l.map f) = .ok [] ∨ ∃ err, sequence (l.map f) = .error err := by
+  cases l with
+  | nil => exact Or.inl rfl
+  | cons x r =>
+    obtain ⟨err, he⟩ := h x (by simp)
+    exact Or.inr ⟨err, by simp [sequence, he]⟩
+
+/-- evaluation of a condition whose merged dictionary is no valid keyword call: no invocation succeeds -/
+theorem evalSym_rejected (q : Quirks) (w : World) (ps : List Param) (d : Dict Arg)
+    (hd : Except.isOk' (bind ps [] d) = false) (doms : Nat → List Nat) (e : Env) (body : List Nat → Nat)
+    (neg : Bool) (sel : List Nat) :
+    evalSym q w ps d doms e body neg sel = .ok ⟨[], []⟩ ∨ ∃ err, evalSym q w ps d doms e body neg sel = .error err := by
+  have hall : ∀ c ∈ combos q doms e d.vals, ∃ err, invokeOne w ps d.keys d.vals c = .error err := by
+    intro c hc
+    have hl := combos_length q doms e d.vals c hc
+    have hkeys : Dict.keys (d.keys.zip (List.zipWith (argValue w) d.vals c.1)) = d.keys := by
+      rw [keys_zip]
+      simp only [hl, Dict.keys, Dict.vals, List.length_zipWith, List.length_map, Nat.min_self]
+      exact List.take_of_length_le (by simp)
+    have := bind_nil_isOk_keys ps (d.keys.zip (List.zipWith (argValue w) d.vals c.1)) d hkeys
+    rw [hd] at this
+    simp only [invokeOne, invokeKw, callSpec]
+    cases hb : bind ps [] (d.keys.zip (List.zipWith (argValue w) d.vals c.1)) with
+    | ok b => simp [hb, Except.isOk'] at this
+    | error err => exact ⟨err, rfl⟩
+  simp only [evalSym]
+  rcases sequence_all_error _ _ hall with h | ⟨err, h⟩
+  · exact Or.inl (by rw [h]; rfl)
+  · exact Or.inr ⟨err, by rw [h]⟩
+
+theorem sequence_silent {ε : Type} (l : List (Except ε Obs))
+    (h : ∀ r ∈ l, r = .ok ⟨[], []⟩ ∨ ∃ err, r = .error err) :
+    (∃ os, sequence l = .ok os ∧ concatObs os = ⟨[], []⟩) ∨ ∃ err, sequence l = .error err := by
+  induction l with
+  | nil => exact Or.inl ⟨[], rfl, rfl⟩
+  | cons r t ih =>
+    rcases h r (by simp) with hr | ⟨err, hr⟩
+    · rcases ih (fun r' hr' => h r' (by simp [hr'])) with ⟨os, h1, h2⟩ | ⟨err, h1⟩
+      · refine Or.inl ⟨⟨[], []⟩ :: os, by simp [sequence, hr, h1], ?_⟩
+        simp only [concatObs, List.foldr_cons] at h2 ⊢
+        rw [h2]; rfl
+      · exact Or.inr ⟨err, by simp [sequence, hr, h1]⟩
+    · exact Or.inr ⟨err, by simp [sequence, hr]⟩
 
 end KrroodVerif.Pred
